@@ -489,7 +489,8 @@ class Interp:
                         else:
                             out.add(("bound", m.qual, a))
                     else:
-                        out |= self.hget(a, ("a", attr))
+                        hv = self.hget(a, ("a", attr))
+                        out |= hv if hv else self.class_attr(ci, attr)
                 else:
                     out.add(("extm", attr, a)) if for_call else out.update(self.synth("attr", a))
             elif k == "src":
@@ -535,6 +536,26 @@ class Interp:
                 else:
                     out |= self.synth("attr", a[2] if k == "extm" else a)
         return frozenset(out)
+
+    def class_attr(self, ci: ClassInfo, attr: str) -> Value:
+        """Value of a plain class-body assignment `attr = <expr>`: one object shared by every instance (allocated in MODULE_CTX)."""
+        key = (ci.qual, "<classattr>", attr)
+        if key in self._glob_cache:
+            return self._glob_cache[key]
+        v = EMPTY
+        for st in ci.node.body:
+            tgt = None
+            if isinstance(st, ast.Assign) and len(st.targets) == 1 and isinstance(st.targets[0], ast.Name):
+                tgt, val = st.targets[0].id, st.value
+            elif isinstance(st, ast.AnnAssign) and isinstance(st.target, ast.Name) and st.value is not None and not ci.is_dataclass:
+                tgt, val = st.target.id, st.value
+            elif isinstance(st, ast.AnnAssign) and isinstance(st.target, ast.Name) and st.value is not None and ci.is_dataclass \
+                    and "ClassVar" in ast.dump(st.annotation):
+                tgt, val = st.target.id, st.value
+            if tgt == attr:
+                v = vjoin(v, self.eval(Frame(None, ci.module, MODULE_CTX, Env()), val))
+        self._glob_cache[key] = v
+        return v
 
     def _note_read(self, fr: Frame, cq: str, attr: str, node):
         if node is not None:
@@ -665,6 +686,20 @@ class Interp:
         base = self.eval(fr, node.value)
         sl = node.slice
         if isinstance(sl, ast.Slice):
+            bc = _single_const(base)
+            if isinstance(bc, tuple):
+                parts = []
+                okc = True
+                for p in (sl.lower, sl.upper, sl.step):
+                    if p is None:
+                        parts.append(None)
+                    else:
+                        pc = _single_const(self.eval(fr, p))
+                        if pc is _NOCONST or not isinstance(pc, int):
+                            okc = False
+                        parts.append(pc)
+                if okc:
+                    return const(bc[slice(*parts)])
             bounds = [self.eval(fr, p) for p in (sl.lower, sl.upper, sl.step) if p is not None]
             res = self.shallow_copy(fr, node, base, sliced=True)
             for n in res:
